@@ -43,8 +43,11 @@ type RunCfg struct {
 
 // l2c / l2a: the order-preserving map between the model's L2 block numbers and the numbers sent to the chain (see RunCfg.L2Top).
 func (ch *Chain) l2c(n int64) uint64 {
-	if ch.Cfg.L2Top <= 0 || n < 2 || n > ch.Cfg.L2Top {
+	if ch.Cfg.L2Top <= 0 || n < 1 || n > ch.Cfg.L2Top {
 		return uint64(n)
+	}
+	if n == 1 {
+		return 0 // the model's smallest number stands for L2 block 0 (a log may start there)
 	}
 	return maxU64 - uint64(ch.Cfg.L2Top-n)
 }
@@ -52,6 +55,9 @@ func (ch *Chain) l2c(n int64) uint64 {
 func (ch *Chain) l2a(v uint64) int64 {
 	if ch.Cfg.L2Top > 0 && v > maxU64-uint64(ch.Cfg.L2Top) {
 		return ch.Cfg.L2Top - int64(maxU64-v)
+	}
+	if ch.Cfg.L2Top > 0 && v == 0 {
+		return 1
 	}
 	return int64(v)
 }
@@ -283,7 +289,11 @@ func (ch *Chain) Exec(e M) Outcome {
 	updEvent := map[string]string{"UpdateProposer": ophosttypes.EventTypeUpdateProposer, "UpdateChallenger": ophosttypes.EventTypeUpdateChallenger,
 		"UpdateBatchInfo": ophosttypes.EventTypeUpdateBatchInfo, "UpdateMetadata": ophosttypes.EventTypeUpdateMetadata}
 	updResp := func(idx, l2bn uint64) M {
-		return M{"idx": int64(idx), "l2bn": ch.l2a(l2bn), "evt": ch.eventRec(lastEvents, updEvent[ty])}
+		n := ch.l2a(l2bn)
+		if idx == 0 { // no finalized output: the zero here is "none", not the L2 block 0
+			n = 0
+		}
+		return M{"idx": int64(idx), "l2bn": n, "evt": ch.eventRec(lastEvents, updEvent[ty])}
 	}
 
 	switch ty {
@@ -519,6 +529,11 @@ func (ch *Chain) eventRec(evs []abci.Event, ty string) M {
 			}
 		default:
 			out[k] = a.Value
+		}
+	}
+	if fi, ok := out["fidx"]; ok && absx.Canon(fi) == absx.Canon(int64(0)) {
+		if _, ok := out["fl2bn"]; ok {
+			out["fl2bn"] = int64(0) // no finalized output: "none", not the L2 block 0
 		}
 	}
 	return out
@@ -876,7 +891,7 @@ func (ch *Chain) query(e M) Outcome {
 		if err != nil {
 			return fail(err)
 		}
-		return Outcome{OK: true, Resp: M{"idx": int64(r.OutputIndex), "l2bn": ch.l2a(r.OutputProposal.L2BlockNumber)}}
+		return Outcome{OK: true, Resp: M{"idx": int64(r.OutputIndex), "l2bn": map[bool]int64{true: 0, false: ch.l2a(r.OutputProposal.L2BlockNumber)}[r.OutputIndex == 0]}}
 	case "OutputProposal":
 		r, err := q.OutputProposal(ctx, &ophosttypes.QueryOutputProposalRequest{BridgeId: b(), OutputIndex: uint64(absx.Int(e["idx"]))})
 		if err != nil {
